@@ -272,7 +272,7 @@ impl Prop for C04 {
         "C04"
     }
     fn rule(&self) -> String {
-        "cases = one logical server message of a chosen size, realised by an assembly (text row of 1-4 cells whose encoded sizes sum to the target with cell boundaries before/at/after the packet limit; binary row; ERR message; column definition with a huge name; a text row abandoned with finish_error after its first 1-2 cells were written), preceded/followed by ordinary rows and PINGs, optionally with short transport writes; 1 case in 600 is instead a text or binary row of 17-70 MB laid out against the packet boundaries (cells of 1x-3x the packet size, several per row, small cells before / between / after). One case in four is run on a transport that fails once at a generated write()/flush() call (ConnectionReset, Other, BrokenPipe, TimedOut, WouldBlock or Interrupted; with short writes, so that the failure also falls inside packets) and works again afterwards: the bytes handed to the transport before and after the failure must be a prefix of the fault-free output. Sizes: enumerated k*(2^24-1)+d for k in {1,2}, d in a window around 0, plus random sizes (small ones by the thousands). Oracle: independent framer over the raw output (consumed exactly; every fragment but the last of a long message is 0xFFFFFF bytes, the last shorter, possibly empty), reassembled messages decoded and compared with the values written. Non-trivial = message >= 2^24-1-8 bytes.".into()
+        "cases = one logical server message of a chosen size, realised by an assembly (text row of 1-4 cells whose encoded sizes sum to the target with cell boundaries before/at/after the packet limit; binary row; ERR message; column definition with a huge name; a text row abandoned with finish_error after its first 1-2 cells were written), preceded/followed by ordinary rows and PINGs, optionally with short transport writes; 1 case in 600 is instead a text or binary row of 17-70 MB laid out against the packet boundaries (cells of 1x-3x the packet size, several per row, small cells before / between / after). One case in four is run on a transport that fails once at a generated write()/flush() call (ConnectionReset, Other, BrokenPipe, TimedOut, WouldBlock or Interrupted; with short writes, so that the failure also falls inside packets) and works again afterwards: when the failure cut a packet short, the bytes handed to the transport before and after it must be a prefix of the fault-free output (a truncated packet can only be continued where it stopped); when it fell on a packet boundary they must be whole packets. Sizes: enumerated k*(2^24-1)+d for k in {1,2}, d in a window around 0, plus random sizes (small ones by the thousands). Oracle: independent framer over the raw output (consumed exactly; every fragment but the last of a long message is 0xFFFFFF bytes, the last shorter, possibly empty), reassembled messages decoded and compared with the values written. Non-trivial = message >= 2^24-1-8 bytes.".into()
     }
     fn assumptions(&self) -> Vec<String> {
         vec!["messages beyond ~4*(2^24-1) bytes are not explored".into()]
@@ -508,6 +508,21 @@ fn exec_fault(conv: &Conversation, at: u32, kind: u8, ex: &mut Exec) {
     }
     if let RunResult::Panic(p) = &o.result {
         ex.fail(format!("c04-panic|{}", panic_signature(p)), format!("run_on panicked after a transport error: {}", o.result.brief()));
+        return;
+    }
+    if !inside {
+        // The failing call had accepted nothing of a new packet (or was a flush): what the server
+        // sends afterwards is its own business as long as it is packets - every byte must belong
+        // to a well-formed packet (the last one possibly cut short by the end of the connection).
+        let (phys, used) = split_packets(&o.out);
+        let rest = &o.out[used..];
+        let tail_ok = rest.is_empty() || rest.len() < 4 || {
+            let l = rest[0] as usize | (rest[1] as usize) << 8 | (rest[2] as usize) << 16;
+            rest.len() - 4 < l
+        };
+        if !tail_ok {
+            ex.fail("c04-bytes-after-failed-write", format!("write/flush call {} failed once at a packet boundary; afterwards the output is not a sequence of packets ({} packets, then {} stray bytes)", k, phys.len(), rest.len()));
+        }
         return;
     }
     if !(o.out.len() <= base.out.len() && base.out[..o.out.len()] == o.out[..]) {
